@@ -50,7 +50,11 @@ def make_cases(ctx):
         if parser == "abs":
             st["RELATIVE_BASE"] = list(ref) + [10, 30, 0, 0]
         else:
-            kw["date_formats"] = [fmt]
+            # the format under test among formats that do not match (none of the strings contains '#'): coarser ones
+            # before it, finer ones after it - the result and its period must be the matching format's alone
+            r = rng.random()
+            dec = ["#%Y", "#%B %Y", "#%Y-%m", "#%d %B %Y", "#%d", "#%H:%M"]
+            kw["date_formats"] = [fmt] if r < 0.4 else (rng.sample(dec, rng.randint(1, 3)) + [fmt] + (rng.sample(dec, 1) if r > 0.8 else []))
         cases.append({"parser": parser, "parts": parts, "y": y, "m": m, "d": d, "tm": tm or [0, 0, 0],
                       "hasTime": tm is not None, "pdom": pd, "pmoy": pm, "ref": list(ref) + [10, 30, 0, 0] if ref else [],
                       "rtap": rtap, "s": s, "kw": kw, "settings": st, "api": "ddp", "probe": parser == "abs"})
@@ -110,7 +114,9 @@ def run(ctx):
     for inv in mc.invariant_violated:
         ctx.violation({"tlc_counterexample": mc.counterexample()[-1:]}, "TLC refuted invariant %s of P_C08 (machine vs oracle)" % inv)
     cases = core.replay_cases(ctx) or make_cases(ctx)
-    results = core.run_cases(ctx, "harness.lib", "call_parse", cases)
+    # a share of the cases runs on parsers that were all constructed before any of them was used (state shared behind
+    # the constructor would surface as another case's result)
+    results = core.run_cases_prebuilt(ctx, cases, lambda i: i % 4 == 0 and not ctx.replay, size=5)
     records, nabs, clockskip = [], 0, 0
     for i, (c, r) in enumerate(zip(cases, results)):
         ref = c["ref"]
